@@ -1,9 +1,16 @@
 (* Property C17 — B-spline signals and SplineMethod trajectories are exact splines of the model.
    Statements only; proofs in Proofs/SplineProofs.v.
-   PARTIAL: that the spline with the coefficients of bspline_derivative is the analytic derivative of
-   the spline is not proved here; the check compares it with scipy's BSpline.derivative on every case. *)
+   Proved: support, partition of unity, Greville points, the coefficient formula of bspline_derivative, and
+   that the spline with those coefficients is the derivative of the spline (algebraically for the
+   product-rule derivative dcdb of the Cox-de Boor recursion over any field; over the reals dcdb is the
+   analytic derivative).  PARTIAL: that signals and SplineMethod *use* these kernels as modelled (sampling at
+   refinements, der() chains, integrator-chain dynamics) is decided by the check's correspondence and by
+   scipy's BSpline as an independent oracle, not by a theorem. *)
 From Coq Require Import ZArith QArith Qcanon List Lia Bool.
-From RV Require Import Base.Num Base.Vec Mech.Spline Inst Proofs.QcInst Proofs.ListLemmas Proofs.SplineProofs.
+From Coq Require Import Reals.
+From Coquelicot Require Import Coquelicot.
+From RV Require Import Base.Num Base.Vec Mech.Spline Inst Proofs.QcInst Proofs.ListLemmas Proofs.SplineProofs
+     Proofs.SplineDer Proofs.DerProofs Proofs.SplineDerReal.
 Import ListNotations.
 Local Open Scope nat_scope.
 
@@ -45,6 +52,57 @@ Proof.
 Qed.
 Print Assumptions C17_derivative_coefficients.
 
+(* the basis derivative recurrence, for the product-rule derivative dcdb of the recursion (any field):
+   B'_{i,e} = e ( B_{i,e-1} / (k_{i+e} - k_i) - B_{i+1,e-1} / (k_{i+e+1} - k_{i+1}) ), terms outside the support
+   of the lower-degree functions being absent *)
+Theorem C17_basis_derivative_recurrence :
+  forall (F : Type) (OF : Ops F), FieldLaws OF ->
+  forall (k : nat -> F) (j : nat) (x : F),
+    (forall a b, a <= j -> j < b -> k b -! k a <> o0) ->
+  forall e' i,
+    dcdb k j x (S e') i
+    = of_nat (S e') *! ((if Nat.leb (j - e') i && Nat.leb i j
+                         then cdb k j x e' i /! (k (i + S e') -! k i) else o0)
+                        -! (if Nat.leb (j - e') (S i) && Nat.leb (S i) j
+                            then cdb k j x e' (S i) /! (k (S i + S e') -! k (S i)) else o0)).
+Proof. intros F OF Fl k j x H e' i. exact (basis_derivative Fl k j x H e' i). Qed.
+Print Assumptions C17_basis_derivative_recurrence.
+
+(* hence: the derivative of the spline sum_i c_i B_{i,d} (n coefficients, d = S e' <= j < n: every span of a
+   clamped knot sequence) is the spline of degree d-1 with the coefficients d (c_{i+1} - c_i) / (k_{i+d+1} - k_{i+1})
+   of bspline_derivative (C17_derivative_coefficients) on the functions B_{i+1,d-1}, which are the basis
+   functions of the knot sequence without its first knot *)
+Theorem C17_spline_derivative_coefficients_exact :
+  forall (F : Type) (OF : Ops F), FieldLaws OF ->
+  forall (k : nat -> F) (j : nat) (x : F),
+    (forall a b, a <= j -> j < b -> k b -! k a <> o0) ->
+  forall (c : nat -> F) (e' n : nat), S e' <= j -> j < n ->
+    sumf (fun i => c i *! dcdb k j x (S e') i) n
+    = sumf (fun i => of_nat (S e') *! (c (S i) -! c i) /! (k (S i + S e') -! k (S i)) *! cdb k j x e' (S i)) (n - 1)
+    /\ (forall i, cdb k j x e' (S i) = cdb (fun m => k (S m)) (j - 1) x e' i).
+Proof.
+  intros F OF Fl k j x H c e' n Hd Hn. split.
+  - exact (spline_derivative Fl k j x H c e' n Hd Hn).
+  - intro i. rewrite cdb_shift. replace (S (j - 1)) with j by lia. reflexivity.
+Qed.
+Print Assumptions C17_spline_derivative_coefficients_exact.
+
+(* over the reals dcdb is the derivative: the spline with the coefficients of bspline_derivative is the
+   analytic derivative of the spline at every x (as a polynomial of its span) *)
+Theorem C17_spline_derivative_is_analytic :
+  forall (k : nat -> R) (j : nat) (c : nat -> R) (e' n : nat) (x : R),
+    (forall a b, a <= j -> j < b -> (k b - k a <> 0)%R) -> S e' <= j -> j < n ->
+    (forall i, is_derive (fun y => @cdb R ROps k j y (S e') i) x (@dcdb R ROps k j x (S e') i)) /\
+    is_derive (fun y => @sumf R ROps (fun i => (c i * @cdb R ROps k j y (S e') i)%R) n) x
+              (@sumf R ROps (fun i => (@of_nat R ROps (S e') * (c (S i) - c i) / (k (S i + S e')%nat - k (S i))
+                                       * @cdb R ROps k j x e' (S i))%R) (n - 1)).
+Proof.
+  intros k j c e' n x H Hd Hn. split.
+  - intro i. apply cdb_is_derive.
+  - exact (spline_is_derive k j c e' n x H Hd Hn).
+Qed.
+Print Assumptions C17_spline_derivative_is_analytic.
+
 (* non-vacuity: quadratic basis on clamped knots 0,0,0,1/2,1,1,1 at x = 1/4 (span j = 2): 9/16... sums to 1 *)
 Local Existing Instance QcOps.
 Example C17_nonvacuous :
@@ -52,3 +110,18 @@ Example C17_nonvacuous :
   this (@sumf Qc QcOps (cdb (knot_fun K) 2 (Q2Qc (1#4)) 2) 4) == 1 /\
   map (fun q => this q) (basis_values K 2 2 (Q2Qc (1#4))) = [(1#4)%Q; (5#8)%Q; (1#8)%Q; 0%Q].
 Proof. split; vm_compute; reflexivity. Qed.
+
+(* non-vacuity of the derivative theorems: same knots, degree 2, span j = 2 (2 <= j < 4): the derivatives of the
+   basis functions at x = 1/4 are -2, 1, 1, 0 (they sum to zero) *)
+Example C17_derivative_nonvacuous :
+  let K := @clamped Qc QcOps [Q2Qc 0; Q2Qc (1#2); Q2Qc 1] 2 in
+  map (fun i => this (@dcdb Qc QcOps (knot_fun K) 2 (Q2Qc (1#4)) 2 i)) (seq 0 4) = [(-2)%Q; 1%Q; 1%Q; 0%Q]
+  /\ (forall a b, a <= 2 -> 2 < b -> b < 7 -> knot_fun K b <> knot_fun K a).
+Proof.
+  split; [vm_compute; reflexivity|].
+  intros a b Ha Hb Hb7.
+  assert (Ea : knot_fun (@clamped Qc QcOps [Q2Qc 0; Q2Qc (1#2); Q2Qc 1] 2) a = Q2Qc 0).
+  { destruct a as [|[|[|a]]]; try reflexivity. lia. }
+  rewrite Ea.
+  destruct b as [|[|[|[|[|[|[|b]]]]]]]; try lia; vm_compute; intro E; discriminate E.
+Qed.
